@@ -69,7 +69,8 @@ def run(prog, chk):
     C19.text_not_altered(prog, chk)  # "the same text": character content is carried verbatim
     C08.author_wins(prog, chk)  # the root's own attributes (id, width, viewBox ...) are kept
     from props import strops
-    strops.check_for(prog, chk, "C04")  # A14.str-ops: how this property's strings are cut up is a reviewed, frozen inventory
+    strops.check_for(prog, chk, "C04")
+    strops.check_number_formatting(prog, chk)  # results are exact up to the 3-decimal *output* rounding  # A14.str-ops: how this property's strings are cut up is a reviewed, frozen inventory
 
 
 def _derives_from_get_attr(body, op, key, depth=8):
